@@ -295,6 +295,14 @@ func RunProperty(p *Property, o Options) int {
 	if nviol > 0 {
 		return 1
 	}
+	for _, st := range order {
+		name := st.Harness
+		if n := st.Caps[CapDiverged]; n > 0 {
+			// nothing violated, but some executions did not replay their prefix: nondeterminism that is not captured
+			fmt.Fprintf(os.Stderr, "CHECK-BROKEN property=%s nondeterminism: %d executions of %s diverged from their prefix\n", p.ID, n, name)
+			return 2
+		}
+	}
 	if guardErr != nil {
 		// nothing violated, but the exploration was too thin to mean anything
 		fmt.Fprintf(os.Stderr, "CHECK-BROKEN property=%s vacuity guard: %v\n", p.ID, guardErr)
